@@ -408,6 +408,8 @@ class Future(Node):
             Args:
                 publisher: Left side publisher
             """
+            if publisher._node is self:  # pylint: disable=protected-access
+                raise _exception.TopologyError('Self subscription')
             if publisher in self._input:
                 raise _exception.TopologyError('Publisher collision')
             self._input[publisher] = index
